@@ -1,4 +1,4 @@
 #!/bin/bash
 # usage: seed_batch.sh <listfile> <parallel>   lines: <seed> <property> <harness,harness>
-export RV_WORKERS=2 RV_MEM_GB=12
+export RV_WORKERS=2 RV_MEM_GB=7
 cat $1 | xargs -P $2 -L 1 bash -c '/verif/tools/seed_run.sh $0 $1 --only $2 > /var/tmp/rvh/seedlogs/batch-$0-$1.out 2>&1; tail -1 /var/tmp/rvh/seedlogs/batch-$0-$1.out'
